@@ -98,7 +98,7 @@ func same(a, b []string) bool {
 // code ranges over (map-order seam of engine/mcrt; schema/ is built with the maporder rewrite for this check), and
 // calls after for each execution.
 func underOrders(body func(), after func(panicSig, panicVal string)) {
-	e := &mcrt.Explorer{MaxPreempt: 0, MaxDelay: -1, MaxDeviate: 1, MaxSteps: 1 << 20, Body: body, Check: func(r *mcrt.Result) bool {
+	e := &mcrt.Explorer{Embedded: true, MaxPreempt: 0, MaxDelay: -1, MaxDeviate: 1, MaxSteps: 1 << 20, Body: body, Check: func(r *mcrt.Result) bool {
 		if r.Status == mcrt.StPanic {
 			after(fmt.Sprintf("panic in %s: %s", lib.PanicSite(r.PanicStack), lib.PanicClass(r.PanicValue)), r.PanicValue)
 		} else {
